@@ -114,6 +114,39 @@ def geo_opts(rng, geo):
     return None, {}
 
 
+def draw_units(rng, which='LTK'):
+    """an extreme but legitimate unit system: factors for lengths (L), times (T) and the field (K); each is 1 or far from 1
+    (nanometres..megametres, nanoseconds..gigaseconds, nano..mega field units). Inputs are rescaled by their physical
+    dimension (see scale_spec / C17), so the rescaled problem is the same problem."""
+    u = {'L': 1.0, 'T': 1.0, 'K': 1.0}
+    if 'L' in which and rng.random() < 0.6:
+        u['L'] = float(10 ** (rng.uniform(-10, -8) if rng.random() < 0.6 else rng.uniform(4, 8)))
+    if 'T' in which and rng.random() < 0.6:
+        u['T'] = float(10 ** (rng.uniform(-11, -8) if rng.random() < 0.5 else rng.uniform(8, 11)))
+    if 'K' in which and rng.random() < 0.6:
+        u['K'] = float(10 ** (rng.uniform(-12, -8) if rng.random() < 0.6 else rng.uniform(6, 10)))
+    return u
+
+
+def scale_faces(cls, faces, L):
+    return [np.asarray(f, dtype=float) * L if AXKIND[cls][k] in ('len', 'rad') else np.asarray(f, dtype=float).copy() for k, f in enumerate(faces)]
+
+
+def scale_spec(spec, L, K):
+    """boundary data in the other unit system: a x L (multiplies a gradient), b unchanged, c x K"""
+    return {'periodic': list(spec['periodic']),
+            'sides': {s: {'kind': v['kind'], 'a': v['a'] * L, 'b': v['b'].copy(), 'c': v['c'] * K} for s, v in spec['sides'].items()}}
+
+
+def equilibrated_cond(M):
+    """1-norm condition number after scaling every row to unit maximum (a unit system makes boundary rows O(1) and interior rows
+    O(1/T): the plain condition number then measures the units, not the problem)"""
+    A = np.asarray(M.toarray() if hasattr(M, 'toarray') else M, dtype=float)
+    r = np.max(np.abs(A), axis=1)
+    r[r == 0] = 1.0
+    return float(np.linalg.cond(A / r[:, None], 1))
+
+
 def gen_grid(rng, cls, nmin=1, nmax=5, family=None, n=None, opts=None):
     """returns (faces list, meta)"""
     nd = NDIM[cls]
@@ -170,7 +203,9 @@ def face_arrays(rng, g, family=None, positive=False):
     for k in range(g.nd):
         sh = g.face_shape(k)
         mag = np.exp(rng.uniform(math.log(1e-2), math.log(1e2), sh))
-        if positive:
+        if positive and family == 'int':
+            a = rng.integers(0 if rng.random() < 0.3 else 1, 7, sh).astype(rng.choice([np.int64, np.int32]))
+        elif positive:
             a = mag.copy()
             if family == 'sign':   # exact zeros on some faces
                 a[rng.random(sh) < 0.25] = 0.0
@@ -182,6 +217,8 @@ def face_arrays(rng, g, family=None, positive=False):
             a = rng.normal(0, 1, sh) * 10 ** rng.uniform(-2, 2)
         elif family == 'const':
             a = np.full(sh, float(rng.normal() * 10 ** rng.uniform(-1, 1)))
+        elif family == 'int':        # whole numbers stored in an integer array (u.xvalue = np.array([3, 1, -2, ...]))
+            a = rng.integers(-5, 6, sh).astype(rng.choice([np.int64, np.int32]))
         else:
             raise KeyError(family)
         out.append(a)
@@ -189,7 +226,8 @@ def face_arrays(rng, g, family=None, positive=False):
 
 
 def facevar(pf, mesh, arrs):
-    a = [np.array(x, dtype=float) for x in arrs] + [np.array([])] * (3 - len(arrs))
+    """three-array constructor form; integer-typed component arrays are handed over as they are"""
+    a = [np.array(x) if np.asarray(x).dtype.kind in 'iu' else np.array(x, dtype=float) for x in arrs] + [np.array([])] * (3 - len(arrs))
     return pf.FaceVariable(mesh, a[0], a[1], a[2])
 
 
